@@ -293,7 +293,14 @@ func c17Main(c c17Case, files [][]rdbgen.Item) (kind, what string) {
 		want = append(want, c17Expected(recs))
 	}
 	conf.Options.SourceRdbInput, conf.Options.TargetRdbOutput = inputs, prefix
-	defer func() { conf.Options.SourceRdbInput, conf.Options.TargetRdbOutput = nil, "" }()
+	// as the start-up checks leave it for decode: source.rdb.parallel defaults to the number of inputs
+	conf.Options.SourceRdbParallel = len(inputs)
+	if c.File%2 == 1 {
+		conf.Options.SourceRdbParallel = 1
+	}
+	defer func() {
+		conf.Options.SourceRdbInput, conf.Options.TargetRdbOutput, conf.Options.SourceRdbParallel = nil, "", 0
+	}()
 	aborted := false
 	hook.SetExitHook(func(int) { aborted = true })
 	defer hook.SetExitHook(nil)
